@@ -286,4 +286,24 @@ def compile_balanced_goal : Prop :=
                  (run vc (progOfCode (instrs c.code) c.consts) fuel).2.scopes = []
       | .error e => e ≠ .underflow ∧ e ≠ .badop
 
+/-! ### the offset guard of the source, consumed -/
+
+/-- **C01's typed-pipeline theorem for the compiler as the translator reads it on this run**: `T.jumpGuard` is the
+    fact `Gen.jumpGuard` regenerated from `compiler.go` (does `emit` / `patchJump` reject operands beyond 16 bits?),
+    so the hypothesis `jumpGuard = true` of `C01.compile_source_conforms_guarded` is discharged from the source
+    instead of being assumed; when the guard disappears from the code this theorem stops checking. -/
+theorem compile_source_conforms_code (F : Api.Front) (T : Api.TypedCfg) (hguard : T.jumpGuard = Gen.jumpGuard)
+    (c : Cfg) (src : String) (cp : Compiled) (checked final : Node)
+    (h : Api.compileSource F T c.world src = .ok cp checked final)
+    (hfl : Refine.floatsOK final = true) (henv : Refine.EnvOK c T.compCfg)
+    (hg : Refine.Good (Refine.SmallColl c) final) :
+    ∃ N, ∀ fuel, N ≤ fuel → ∃ res fin, Api.runSource F T c fuel src = .ran cp res fin ∧
+      Refine.RunAgrees (res, fin) (Spec.run (Refine.specOf c) (Api.castOf T.check.expect) final) :=
+  C01.compile_source_conforms_guarded F T (hguard.trans offset_guard_present) c src cp checked final h hfl henv hg
+
+/-- every program the compiler model emits under the source's guard has operands that fit 16 bits -/
+theorem compiled_fits_code (cfg : CompCfg) (hcfg : Bc.CompCfgOk cfg) (hguard : cfg.jumpGuard = Gen.jumpGuard)
+    (n : Node) (cp : Compiled) (hc : compileProgram cfg n = .ok cp) : Refine.FitsU16 cp.code :=
+  Refine.fitsU16_of_guard cfg hcfg (hguard.trans offset_guard_present) n cp hc
+
 end ExprModel.C05
